@@ -393,7 +393,9 @@ impl Model {
         crate::verif::sched::point("s1.enter");
         let items_consumed = self.item_pool.num_not_taken() == 0;
         let reader_stopped = self.reader_control.as_ref().map(|c| c.is_done()).unwrap_or(true);
-        let matcher_stopped = self.matcher_control.as_ref().map(|ctrl| ctrl.stopped()).unwrap_or(true);
+        // a run that has stopped but whose results are not harvested yet does not count as finished:
+        // the list it is about to be judged on would be incomplete
+        let matcher_stopped = self.matcher_control.is_none();
 
         let processed = reader_stopped && items_consumed && matcher_stopped;
         #[cfg(feature = "verif")]
